@@ -306,8 +306,9 @@ def main(argv):
         'explanation': 'contract-based deductive verification: %d obligations, %d discharged, %d undecided (see undecided_samples); level is "other" whenever something is undecided' % (obligations, discharged, undecided + len(undecided_paths)),
     }
     evidence.update(level=level, coverage=cov, assumptions=sorted(assumed), wall_s=round(wall, 2), violations=violations)
-    os.makedirs(os.path.join(HERE, 'evidence'), exist_ok=True)
-    with open(os.path.join(HERE, 'evidence', '%s.json' % prop), 'w') as f:
+    evdir = os.environ.get('FXPV_EVIDENCE_DIR') or os.path.join(HERE, 'evidence')      # the override is for tools/seedcheck.py only (runs on a changed scratch tree)
+    os.makedirs(evdir, exist_ok=True)
+    with open(os.path.join(evdir, '%s.json' % prop), 'w') as f:
         json.dump(evidence, f, indent=1, default=str)
 
     for l in known_lines:
